@@ -22,6 +22,7 @@ CONSTANTS NUM,            \* number of block sizes (31)
 
 HALF == LEN \div 2
 NIL == -1
+NoSize == <<-1, -1>>                 \* "no size declared"
 MinOf(a, b) == IF a <= b THEN a ELSE b
 MaxOf(a, b) == IF a >= b THEN a ELSE b
 
@@ -106,11 +107,11 @@ RFin(r, trunc, long) == RFinRz(r, trunc, long, RollIsZero(r.roll))
 
 (* ============ the generator object as the API presents it =============== *)
 (* reference state + the declared size; this is what trace validation steps *)
-GInit == [ref |-> RInit, fixed |-> NIL]
+GInit == [ref |-> RInit, fixed |-> NoSize]
 GStep(g, e) == [g EXCEPT !.ref = RStep(g.ref, e)]
 GSetFixedResult(g, n) == IF SzLT(MaxSize, n) THEN "TooLarge"
-                         ELSE IF g.fixed # NIL /\ g.fixed # n THEN "Mismatch" ELSE "Ok"
+                         ELSE IF g.fixed # NoSize /\ g.fixed # n THEN "Mismatch" ELSE "Ok"
 GSetFixed(g, n) == IF GSetFixedResult(g, n) = "Ok" THEN [g EXCEPT !.fixed = n] ELSE g
-GFin(g, trunc, long) == IF g.fixed # NIL /\ g.fixed # g.ref.size THEN [err |-> "Mismatch"]
+GFin(g, trunc, long) == IF g.fixed # NoSize /\ g.fixed # g.ref.size THEN [err |-> "Mismatch"]
                         ELSE RFin(g.ref, trunc, long)
 =============================================================================
